@@ -143,7 +143,7 @@ package memefish
 // @ func token.(*Token).IsIdent
 // @   props C03
 // @   requires t != nil
-// @   ensures result ==> t.Kind == "<ident>"
+// @   ensures result ==> t.Kind == "<ident>" && len(t.AsString) == len(s)
 // @   modifies nothing
 
 // @ func token.(*Token).IsKeywordLike
@@ -525,6 +525,7 @@ package memefish
 // @   inherit parser
 // @   ensures len(result) >= 1
 // @   loop 0 invariant len(ids) >= 1 && (len(p.errors) == old(len(p.errors)) ==> p.Lexer.Token.Pos > old(p.Lexer.Token.Pos))
+// @   loop 0 invariant[C06] exactl: len(p.errors) == old(len(p.errors)) ==> spans(ids, old(p.Lexer.Token.Pos), trivStart(p.Lexer))
 
 // @ func memefish.(*Parser).lookaheadSimpleType
 // @   inherit lookahead
@@ -579,10 +580,18 @@ package memefish
 
 // @ func memefish.(*Parser).parseSimpleType
 // @   inherit parser
+// the node ends at NamePos + len(Name): exact when the type name is written without back quotes;
+// for a back-quoted name (which the production accepts) the range is two bytes short: known finding
+// @   ensures[C06] exact: len(p.errors) == old(len(p.errors)) && old(len(p.Lexer.Token.Raw)) == old(len(p.Lexer.Token.AsString)) ==> spans(result, lowerBound(), trivStart(p.Lexer))
+// @   ensures[C06] exactquoted: len(p.errors) == old(len(p.errors)) ==> spans(result, lowerBound(), trivStart(p.Lexer))
 // @   loop 0 invariant 0 - 1 <= rangeindex && rangeindex < len(simpleTypes) && len(p.errors) == old(len(p.errors)) && p.Lexer.Token.Pos > old(p.Lexer.Token.Pos)
 // @   loop 0 decreases len(simpleTypes) - rangeindex
 // @ func memefish.(*Parser).parseScalarSchemaType
 // @   inherit parser
+// the node ends at NamePos + len(Name): exact when the type name is written without back quotes;
+// for a back-quoted name (which the production accepts) the range is two bytes short: known finding
+// @   ensures[C06] exact: len(p.errors) == old(len(p.errors)) && old(len(p.Lexer.Token.Raw)) == old(len(p.Lexer.Token.AsString)) ==> spans(result, lowerBound(), trivStart(p.Lexer))
+// @   ensures[C06] exactquoted: len(p.errors) == old(len(p.errors)) ==> spans(result, lowerBound(), trivStart(p.Lexer))
 // @   loop 0 invariant 0 - 1 <= rangeindex && rangeindex < len(scalarSchemaTypes) && len(p.errors) == old(len(p.errors)) && p.Lexer.Token.Pos > old(p.Lexer.Token.Pos)
 // @   loop 0 decreases len(scalarSchemaTypes) - rangeindex
 // @   loop 1 invariant 0 - 1 <= rangeindex && rangeindex < len(sizedSchemaTypes) && len(p.errors) == old(len(p.errors)) && p.Lexer.Token.Pos > old(p.Lexer.Token.Pos)
@@ -731,3 +740,29 @@ package memefish
 // @ func memefish.(*Parser).parseCallLike
 // @   inherit parser
 // @   ensures[C07] level: prec(result) <= 0 && parenfree(result)
+
+// ---------------------------------------------------------------------------------------------
+// Helpers that hand positions back to their caller (C06): the position they return is tied to the
+// token they consumed last; when they consume nothing the lexer is where it was.
+// @ spec noNewErr(p, n0) = len(p.errors) == n0
+// @ spec lexUnmoved(p, pos0, ts0) = p.Lexer.Token.Pos == pos0 && trivStart(p.Lexer) == ts0
+
+// @ func memefish.(*Parser).parseOnDeleteAction
+// @   inherit parser
+// @   ensures[C06] endpos: len(p.errors) == old(len(p.errors)) ==> result1 == trivStart(p.Lexer) && result1 >= 0
+// @ func memefish.(*Parser).tryParseOnDeleteAction
+// @   inherit parseropt
+// @   ensures[C06] endpos: len(p.errors) == old(len(p.errors)) ==> (result1 >= 0 && result1 == trivStart(p.Lexer)) || (result1 < 0 && lexUnmoved(p, old(p.Lexer.Token.Pos), old(trivStart(p.Lexer))))
+// @ func memefish.(*Parser).tryParseDirection
+// @   inherit parseropt
+// @   ensures[C06] dirpos: len(p.errors) == old(len(p.errors)) ==> (result1 >= 0 && result1 == old(p.Lexer.Token.Pos) && result1 + len(result0) == trivStart(p.Lexer)) || (result1 < 0 && len(result0) == 0 && lexUnmoved(p, old(p.Lexer.Token.Pos), old(trivStart(p.Lexer))))
+// @ func memefish.(*Parser).parseArrayLiteralBody
+// @   inherit parser
+// @   ensures[C06] brackets: len(p.errors) == old(len(p.errors)) ==> result1 == old(p.Lexer.Token.Pos) && result2 >= 0 && result2 + 1 == trivStart(p.Lexer)
+// @ func memefish.(*Parser).parseTypeNotNull
+// @   inherit parser
+// @   ensures[C06] nullpos: len(p.errors) == old(len(p.errors)) ==> $pos(result0) == old(p.Lexer.Token.Pos) && ((result1 && result2 >= 0 && result2 + 4 == trivStart(p.Lexer)) || (!result1 && result2 < 0 && $end(result0) == trivStart(p.Lexer)))
+// @ func memefish.(*Parser).tryParseTablePrivilegeColumns
+// @   inherit parseropt
+// @   ensures[C06] rparen: len(p.errors) == old(len(p.errors)) ==> (result1 >= 0 && result1 + 1 == trivStart(p.Lexer)) || (result1 < 0 && lexUnmoved(p, old(p.Lexer.Token.Pos), old(trivStart(p.Lexer))))
+
